@@ -10,10 +10,11 @@ MANIFEST = {
                  "(extracted OCaml vs the real Go API on op histories) + round-trip search on the implementation",
     "level_text": "Theorems (coq/c05/C05Theorems.v, all closed under the global context), for ALL sample field values, flag words, "
                   "trex contents, extra-box sizes and op histories (induction over the op list): C05_roundtrip / C05_roundtrip_nil / "
-                  "C05_roundtrip_lazy / C05_roundtrip_single: "
+                  "C05_roundtrip_lazy / C05_roundtrip_single / C05_roundtrip_single_modes: "
                   "for multi-track fragments under any history of AddFullSampleToTrack (unknown ids refused, tracks receiving nothing "
                   "included; also the metadata-only form AddSampleToTrack with the data written by the caller after the fragment) and "
-                  "single-track fragments under AddFullSample/AddFullSampleToTrack, optimisation on or off, any trex or nil: "
+                  "single-track fragments under all six add operations in each data mode (full samples, metadata only, sample intervals), "
+                  "optimisation on or off, any trex (nil for multi-track): "
                   "if Encode succeeds, GetFullSamples on the decoded view returns exactly the added full samples of the trex's track "
                   "(bytes, size, duration, flags, cto, decode time), given Size=len(Data), decode times consistent with durations and "
                   "the 2 GiB int32 guard; trun/tfhd enter through their wire view, which C05_trun_codec / C05_tfhd_codec prove to be "
@@ -24,8 +25,8 @@ MANIFEST = {
                   "sizes of earlier runs; run data placed there; tfdt = first decode time), C05_offsets_partial (single run, all six "
                   "operations), C05_lazy_equiv_partial (metadata-only histories build the same trafs/moof, lazy size = sum of sizes). "
                   "NOT proved, explored only (model correspondence + round-trip search on the real code): container framing and the "
-                  "mfhd/tfdt/mdat/extra-box bytes, both encoders/decoders, AddSample/AddSamples/AddSampleInterval end to end (their trafs "
-                  "are covered by C05_history_inv_single), multi-fragment segments (fragments are independent: pos0 is arbitrary).",
+                  "mfhd/tfdt/mdat/extra-box bytes, both encoders/decoders, multi-fragment segments (fragments are independent: pos0 is "
+                  "arbitrary), mixed data modes in one fragment.",
     "level_note": "Trusted: Coq kernel, extraction (ExtrOcamlBasic), OCaml/Go glue, generators. The model is a hand transcription tied to "
                   "/repo by differential runs on every check (op outcome classes, write-order numbers, tfdt, mdat bookkeeping, flags and "
                   "defaults after optimisation, all data offsets, sizes, recovered FullSample lists). Box bodies other than "
